@@ -9,6 +9,7 @@ pub fn dispatch(f: &[String]) -> String {
         "prog" => prog(&f[1], &f[2]),
         "pratt" => pratt(&f[1]),
         "type" => types(f),
+        "call" => call(&f[1], &f[2], &f[3]),
         other => format!("(bad-mode {other})"),
     }
 }
@@ -314,4 +315,46 @@ fn types(f: &[String]) -> String {
         Ok(s) => s,
         Err(_) => format!("(panic {})", take_panic()),
     }
+}
+
+
+/// `call <flags> <program yielding a function> <program yielding an array of arguments>`:
+/// the host route `Function::create_call(args)` + `Code::exec`, under the monitor
+fn call(flags: &str, fsrc: &str, asrc: &str) -> String {
+    let interp = interpreter_for(flags);
+    let get = |src: &str| -> Result<Variable, String> {
+        let parsed = panic::catch_unwind(AssertUnwindSafe(|| Code::parse(&interp, src)));
+        let code = match parsed {
+            Err(_) => return Err(format!("(parse-panic {})", take_panic())),
+            Ok(Err(e)) => return Err(format!("(rejected {})", canon::error(&e))),
+            Ok(Ok(c)) => c,
+        };
+        match panic::catch_unwind(AssertUnwindSafe(|| code.exec())) {
+            Err(_) => Err(format!("(setup-panic {})", take_panic())),
+            Ok(Err(e)) => Err(format!("(setup-error {})", canon::exec_error(&e))),
+            Ok(Ok(v)) => Ok(v),
+        }
+    };
+    let fv = match get(fsrc) {
+        Ok(Variable::Function(f)) => f,
+        Ok(other) => return format!("(not-a-function {})", canon::value(&other)),
+        Err(e) => return format!("(function-setup {e})"),
+    };
+    let args: Vec<Variable> = match get(asrc) {
+        Ok(Variable::Array(a)) => a.iter().cloned().collect(),
+        Ok(other) => return format!("(args-not-an-array {})", canon::value(&other)),
+        Err(e) => return format!("(args-setup {e})"),
+    };
+    let ftype = canon::ty(&fv.as_type());
+    let created = panic::catch_unwind(AssertUnwindSafe(|| fv.clone().create_call(args)));
+    let code = match created {
+        Err(_) => return format!("(create-call-panic {} {})", ftype, take_panic()),
+        Ok(Err(e)) => return format!("(call-rejected {} {})", ftype, canon::error(&e)),
+        Ok(Ok(c)) => c,
+    };
+    // the declared result type of the function is what the host is promised
+    let declared = fv.return_type();
+    let t = code.return_type();
+    let run = run_monitored(&declared, || code.exec());
+    format!("(call-accepted {} {} {})", ftype, canon::ty(&t), run)
 }
